@@ -83,7 +83,7 @@ _MORE = {
             "contract-based deductive verification (loop invariants with ghost owner maps; callers checked against step contracts) + bounded cross-check"),
     "C18": ("add_cand_edges proved for every number of frames/detections/gaps: three nested loop invariants give 'edge a->b iff b is in the frame right after a's and within the maximum distance' "
             "(KDTree query and sorted keys assumed as external contracts); nodes_from_segmentation, nodes_from_points_list (no scale) and _compute_node_frame_dict proved to create one node per detection with its time / seg id / "
-            "area / centroid and exactly the frame->nodes mapping the edge proof relies on. _get_iou_dict / add_iou proved to give every candidate edge the IoU of its two masks (0 without overlap; _compute_ious assumed). Bounded: point scaling, multiseg IoU and end-to-end cross-check on every placement of <=4 points in 4 frames and random label videos.",
+            "area / centroid and exactly the frame->nodes mapping the edge proof relies on. _get_iou_dict / add_iou proved to give every candidate edge the IoU of its two masks (0 without overlap; _compute_ious assumed). The two composing functions are checked against the callees' contracts (all call-site preconditions discharged) and yield the property's statement. Bounded: multiseg IoU and an end-to-end cross-check on every placement of <=4 points in 4 frames and random label videos.",
             "contract-based deductive verification (nested loop invariants, uninterpreted distance predicate) + bounded stand-in"),
     "C19": ("ensure_unique_labels proved for every number of frames/pixels by a loop invariant over the real loop (both multiseg settings); relabel_segmentation_with_track_id proved for every graph and array: "
             "components are taken of the solution minus out-edges of dividing nodes, every pixel of a node's (time, seg id) carries 1 + its segment index, everything else background, inputs untouched "
